@@ -141,3 +141,22 @@ Fixpoint strict_ok (ctx : schemas) (j : json) (t : ty) {struct j} : bool :=
 
 Definition strict_ok_object (ctx : schemas) (p n : string) (j : json) : bool :=
   match j with JNull => false | _ => strict_ok ctx j (TRef attrs0 p n) end.
+
+(* ---------- side conditions of the partial theorems ---------- *)
+(* no constraint can be reached from an object that is not a struct: resolvesToConstraints follows a
+   reference only when it resolves to a struct, so whatever sits behind an alias (scalar, array, map,
+   enum object) is never validated *)
+Definition ctx_alias_free (ctx : schemas) : bool :=
+  forallb (fun s => forallb (fun ko => (is_struct (o_type (snd ko)) || negb (rtc ctx (o_type (snd ko))))%bool)
+                            (s_objects s)) ctx.
+
+Definition struct_object (ctx : schemas) (p n : string) : bool :=
+  match locate_object ctx p n with Some o => is_struct (o_type o) | None => false end.
+
+Fixpoint json_null_free (j : json) : bool :=
+  match j with
+  | JNull => false
+  | JArr l => forallb json_null_free l
+  | JObj ms => forallb (fun kv => json_null_free (snd kv)) ms
+  | _ => true
+  end.
